@@ -256,3 +256,44 @@ Proof. intros. unfold run_for. rewrite loop_refines. eexists. reflexivity. Qed.
 
 Theorem recursive_depth : forall t d0, rec_loop d0 t = levels d0 t.
 Proof. intros t d0. reflexivity. Qed.
+
+(* ------------------------------------------------------------------ loop controls *)
+
+Lemma run_ctl_go_cut : forall fuel k s script ctls ind l,
+  run_go fuel k s script = Some l ->
+  run_ctl_go fuel k s script ctls ind =
+  Some (cut ctls l, match l with [] => ind | _ => false end).
+Proof.
+  induction fuel as [|fuel IH]; intros k s script ctls ind l H; [discriminate|].
+  cbn [run_go run_ctl_go] in *. destruct (m_next s) as [[x s1]|]; [|injection H as <-; reflexivity].
+  destruct (m_queries k s1 (hd [] script)) as [s2 ans].
+  destruct (run_go fuel k s2 (tl script)) as [l'|] eqn:R; [|discriminate]. injection H as <-.
+  cbn [cut]. destruct (hd Go ctls); try reflexivity;
+  rewrite (IH k s2 (tl script) (tl ctls) false l' R); destruct l'; reflexivity.
+Qed.
+
+Theorem else_iff_empty_ctl : forall k filtered p d0 xs script ctls o,
+  run_for_ctl k filtered p d0 xs script ctls = Some o ->
+  let src := if filtered then filter p xs else xs in
+  visited o = cut ctls (spec src d0 script) /\
+  map fst (visited o) = cut ctls src /\
+  (else_taken o = true <-> src = []).
+Proof.
+  intros k filtered p d0 xs script ctls o H src. unfold run_for_ctl in H. fold src in H.
+  pose proof (loop_refines (if filtered then Unsized else k) d0 src script) as R. unfold run in R.
+  rewrite (run_ctl_go_cut _ _ _ _ ctls true _ R) in H. injection H as <-. cbn [visited else_taken].
+  split; [reflexivity|]. split.
+  - assert (G : forall A B (f : A -> B) c (l : list A), map f (cut c l) = cut c (map f l)).
+    { intros A B f c l. revert c. induction l as [|e r IHl]; intros c; cbn [cut map]; [reflexivity|].
+      f_equal. destruct (hd Go c); try reflexivity; apply IHl. }
+    rewrite G. unfold spec. rewrite spec_go_items. reflexivity.
+  - unfold spec. destruct src as [|x r]; cbn [spec_go]; [tauto|].
+    destruct (s_answers (x :: r) d0 0 x (hd [] script) None). split; congruence.
+Qed.
+
+Theorem run_for_ctl_total : forall k filtered p d0 xs script ctls, exists o, run_for_ctl k filtered p d0 xs script ctls = Some o.
+Proof.
+  intros. unfold run_for_ctl.
+  pose proof (loop_refines (if filtered then Unsized else k) d0 (if filtered then filter p xs else xs) script) as R.
+  unfold run in R. rewrite (run_ctl_go_cut _ _ _ _ ctls true _ R). eexists. reflexivity.
+Qed.
